@@ -117,14 +117,15 @@ def run(ctx):
     npair = 60 if quick else 250
     Q = 4
     for ci in range(ncell):
-        small = ci % 2 == 0          # small cells: the true-nearest clause is checked as well
+        small = bool(rng.random() < .5)          # (options drawn independently; no modular coupling) # small cells: the true-nearest clause is checked as well
         if small:
             L = rng.integers(2, 5, 3) * 4
             tilt = [int(rng.integers(-L[0] // 4, L[0] // 4 + 1)) * 2 if rng.random() < .7 else 0 for _ in range(3)]
         else:
             L = rng.integers(4, 40, 3)
             tilt = [int(rng.integers(-L[0], L[0] + 1)) if rng.random() < .7 else 0 for _ in range(3)]
-            if ci % 8 == 1:      # thin cell whose tilt nearly equals lx: b - a is shorter than a and b
+            thin = bool(rng.random() < .3)
+            if thin:      # thin cell whose tilt nearly equals lx: b - a is shorter than a and b
                 L[1] = int(rng.integers(2, 6))
                 tilt[0] = int(L[0] - rng.integers(0, 3))
         v = [[int(L[0]), 0, 0], [tilt[0], int(L[1]), 0], [tilt[1], tilt[2], int(L[2])]]
@@ -146,10 +147,10 @@ def run(ctx):
             jit = rng.integers(-3, 4, (n, 3))
             return np.array(o) + rel @ V + jit * (rng.random((n, 1)) < .7)
 
-        spread = (0, 1) if ci % 3 else (-2, 3)
+        spread = (0, 1) if rng.random() < .6 else (-2, 3)
         P0 = ptsrel(npair, *spread)
         P1 = ptsrel(npair, *spread)
-        if ci % 4 == 1:          # close pairs: the direct separation is short, a lattice image may still be shorter in a tilted cell
+        if rng.random() < .35:          # close pairs: the direct separation is short, a lattice image may still be shorter in a tilted cell
             P1 = P0 + rng.integers(-6, 7, P0.shape)
         f0, f1 = P0 / Q, P1 / Q
         tag = 'cell%d' % ci
@@ -201,7 +202,7 @@ def run(ctx):
             d = system.dmag(slice(None), f1)
             recs += _rec_rows('dmag', v, o, pbc, P0, P1, d, Q, False, tag + ':sysdmag(all,pos)', 'dm')
             # displacement between two systems under each reference
-            v2 = [[int(2 * x) for x in row] for row in v] if ci % 2 else v
+            v2 = [[int(2 * x) for x in row] for row in v] if rng.random() < .5 else v
             pbc2 = [not pbc[0], pbc[1], pbc[2]]
             sys1 = am.System(atoms=am.Atoms(pos=f1.copy()), box=_box(am, v2, o, Q), pbc=pbc2)
             d = am.displacement(system, sys1)
